@@ -411,9 +411,11 @@ fn handle_fixtures_list(path: PathBuf, skip_unused: bool, only_unused: bool) {
     // Canonicalize the path to resolve symlinks and relative components
     let canonical_path = absolute_path.canonicalize().unwrap_or(absolute_path);
 
-    // Create a fixture database and scan the directory
+    // Create a fixture database and scan the directory, with the exclude patterns of its
+    // pyproject.toml, as the language server does for a workspace
+    let config = config::Config::load(&canonical_path);
     let fixture_db = FixtureDatabase::new();
-    fixture_db.scan_workspace(&canonical_path);
+    fixture_db.scan_workspace_with_excludes(&canonical_path, &config.exclude);
 
     // Print the tree
     fixture_db.print_fixtures_tree(&canonical_path, skip_unused, only_unused);
@@ -447,9 +449,11 @@ fn handle_fixtures_unused(path: PathBuf, format: &str) {
     // Canonicalize the path to resolve symlinks and relative components
     let canonical_path = absolute_path.canonicalize().unwrap_or(absolute_path);
 
-    // Create a fixture database and scan the directory
+    // Create a fixture database and scan the directory, with the exclude patterns of its
+    // pyproject.toml, as the language server does for a workspace
+    let config = config::Config::load(&canonical_path);
     let fixture_db = FixtureDatabase::new();
-    fixture_db.scan_workspace(&canonical_path);
+    fixture_db.scan_workspace_with_excludes(&canonical_path, &config.exclude);
 
     // Get unused fixtures
     let unused = fixture_db.get_unused_fixtures();
